@@ -78,6 +78,67 @@ class Outcome(object):
     return '<%s %r>' % (self.kind, self.value)
 
 
+_KEY_CACHE = {}
+
+
+def _parsed_key(key):
+  """a fact key `L == c` / `L != c` -> (text of L, is_eq, c) or None."""
+  if key not in _KEY_CACHE:
+    res = None
+    if '==' in key or '!=' in key:
+      try:
+        e = ast.parse(key, mode='eval').body
+        if isinstance(e, ast.Compare) and len(e.ops) == 1 and \
+            isinstance(e.ops[0], (ast.Eq, ast.NotEq)) and \
+            isinstance(e.comparators[0], ast.Constant):
+          res = (norm(e.left), isinstance(e.ops[0], ast.Eq), e.comparators[0].value)
+      except SyntaxError:
+        res = None
+    _KEY_CACHE[key] = res
+  return _KEY_CACHE[key]
+
+
+def _equality_reasoning(node, facts):
+  """`x == 'a'` known true decides `x == 'b'` (false), `x != 'b'` (true) and
+  `x in ('b', 'c')`; the left side is compared as text, like every other fact."""
+  op = node.ops[0]
+  c = node.comparators[0]
+  if isinstance(c, ast.Constant):
+    consts = [c.value]
+  elif isinstance(c, (ast.Tuple, ast.List, ast.Set)) and \
+      all(isinstance(e, ast.Constant) for e in c.elts):
+    consts = [e.value for e in c.elts]
+  else:
+    return None
+  if isinstance(op, (ast.Eq, ast.NotEq)) and not isinstance(c, ast.Constant):
+    return None
+  if not isinstance(op, (ast.Eq, ast.NotEq, ast.In, ast.NotIn)):
+    return None
+  left = norm(node.left)
+  known = None
+  excluded = set()
+  for k, v in facts.items():
+    pk = _parsed_key(k) if isinstance(k, str) else None
+    if pk is None or pk[0] != left:
+      continue
+    try:
+      if pk[1] == bool(v):         # (== and true) or (!= and false)
+        known = pk[2]
+      else:
+        excluded.add(pk[2])
+    except TypeError:
+      continue
+  positive = isinstance(op, (ast.Eq, ast.In))
+  try:
+    if known is not None:
+      return (known in consts) == positive
+    if all(x in excluded for x in consts):
+      return not positive
+  except TypeError:
+    return None
+  return None
+
+
 class Interp(object):
 
   def __init__(self, fn, hooks=None, max_paths=20000):
@@ -136,6 +197,21 @@ class Interp(object):
       r = h(node, st, self)
       if r is not NotImplemented:
         return r
+    if isinstance(node, ast.BinOp):
+      l, r = self.value(node.left, st), self.value(node.right, st)
+      if isinstance(l, Const) and isinstance(r, Const):
+        try:
+          if isinstance(node.op, ast.Add) and type(l.v) is type(r.v) and \
+              isinstance(l.v, (str, int, float)) and not isinstance(l.v, bool):
+            return Const(l.v + r.v)
+          if isinstance(node.op, ast.Sub) and isinstance(l.v, (int, float)) and \
+              isinstance(r.v, (int, float)):
+            return Const(l.v - r.v)
+          if isinstance(node.op, ast.Mod) and isinstance(l.v, str) and \
+              isinstance(r.v, (str, int)) and not isinstance(r.v, bool):
+            return Const(l.v % r.v)
+        except (TypeError, ValueError):
+          pass
     if isinstance(node, ast.Subscript) and isinstance(node.slice, ast.Constant) and \
         isinstance(node.slice.value, int):
       base = self.value(node.value, st)
@@ -232,7 +308,10 @@ class Interp(object):
         return not any(x == l for x in r)
     if isinstance(op, (ast.Is, ast.Eq)) and isinstance(l, Sym) and l == r:
       return True
-    return st.facts.get(norm(node))
+    got = st.facts.get(norm(node))
+    if got is None:
+      got = _equality_reasoning(node, st.facts)
+    return got
 
   def cond(self, node, st):
     """Yields (bool, state) for every consistent outcome of the test."""
@@ -269,6 +348,19 @@ class Interp(object):
         yield (True, s)
       else:
         yield from self._boolop(values[1:], is_and, s)
+
+  def _elem(self, node, st):
+    """abstract element of the iterable of a for loop; an iterable held in a
+    local is named by what the local holds, so that the provenance of the
+    element survives hoisting the iterable into a variable."""
+    if isinstance(node.iter, ast.Name):
+      try:
+        v = self.value(node.iter, st)
+      except AnalysisError:
+        v = None
+      if isinstance(v, Sym) and v.text != node.iter.id:
+        return Sym('elem(%s)' % v.text)
+    return Sym('elem(%s)' % norm(node.iter))
 
   def _count(self):
     self.paths += 1
@@ -401,7 +493,7 @@ class Interp(object):
         # exactly one iteration of the body (used by must-raise scenarios)
         s1 = st.copy()
         if isinstance(node, ast.For):
-          self.assign(node.target, Sym('elem(%s)' % norm(node.iter)), s1)
+          self.assign(node.target, self._elem(node, s1), s1)
         for s, sig in self.block(node.body, s1):
           if sig is None or sig[0] in ('break', 'continue'):
             yield (s, None)
@@ -411,7 +503,7 @@ class Interp(object):
         yield (st.copy(), None)
         s1 = st.copy()
         if isinstance(node, ast.For):
-          self.assign(node.target, Sym('elem(%s)' % norm(node.iter)), s1)
+          self.assign(node.target, self._elem(node, s1), s1)
         for s, sig in self.block(node.body, s1):
           if sig is None or sig[0] in ('break', 'continue'):
             yield (s, None)
